@@ -67,6 +67,12 @@ def check_stop(ctx, case):
         a_state, a_key = gen.L(case, a_state), gen.L(case, a_key, 3)       # C / Fortran / strided / negative-stride views
     s0, k0 = a_state.copy(), a_key.copy()
     out = must(case, 'aes.%s(at_round=%s, after_step=%s, shape=%s)' % (mode, rnd, step, shape), f, a_state, a_key, **kw)
+    if case.get('hold', gen.layout_of(case, 7) in ('F', 'strided')):
+        # the result is kept while the function is called again with other arguments of the same shapes: it must not change
+        try:
+            f(gen._perturb(a_state), gen._perturb(a_key), **kw)
+        except Exception:
+            pass
     # documented defaults: at_round omitted = last round, after_step omitted = last operation of the round
     erk, est = (nr if rnd is None else rnd), (3 if step is None else step)
     n = max(len(blocks) if shape in ('many-one', 'paired') else 1, len(keys) if shape in ('one-many', 'paired') else 1)
@@ -90,10 +96,21 @@ def check_stop(ctx, case):
              key=(mode, rnd, step, shape, dt, keys, blocks, bool(case.get('step_enum')), bool(case.get('prime'))))
 
 
+def _structure(g, arr):
+    """batches with repeated rows: first row == last row with other rows in between, or all rows equal"""
+    if len(arr) >= 3:
+        r = int(g.integers(4))
+        if r == 0:
+            arr[-1] = arr[0]
+        elif r == 1:
+            arr[:] = arr[0]
+    return arr
+
+
 def _mk(mode, ks, rnd, step, shape, dt, g):
-    n = int(g.integers(1, 4)) if shape != 'one-one' else 1
-    keys = g.integers(0, 256, size=(n if shape in ('one-many', 'paired') else 1, ks)).astype('uint8')
-    blocks = g.integers(0, 256, size=(n if shape in ('many-one', 'paired') else 1, 16)).astype('uint8')
+    n = int(g.integers(1, 6)) if shape != 'one-one' else 1
+    keys = _structure(g, g.integers(0, 256, size=(n if shape in ('one-many', 'paired') else 1, ks)).astype('uint8'))
+    blocks = _structure(g, g.integers(0, 256, size=(n if shape in ('many-one', 'paired') else 1, 16)).astype('uint8'))
     return {'kind': 'stop', 'mode': mode, 'at_round': rnd, 'after_step': step, 'shape': shape, 'dtype': dt, 'keys': keys, 'blocks': blocks}
 
 
